@@ -4,12 +4,15 @@
 /// `HttpRouter::insert` is meant to maintain (ASSUMED here: `insert` is out of reach):
 ///  * a wildcard (`VariableRest`) child is terminal: it has no outgoing edges;
 ///  * method names stored in a node are legal header values (they are upper-cased HTTP method names);
-///  * the version range of every stored endpoint is an ordered pair (the type invariant of OrderedVersionPair).
+///  * the version range of every stored endpoint is an ordered pair (the type invariant of OrderedVersionPair);
+///  * the endpoints stored for one method name pairwise share no version (so at most one serves a request: lemma unique_match).
 pub open spec fn wf_node<C: ServerContext>(n: HttpRouterNode<C>) -> bool
     decreases n
 {
     &&& (forall|k: String| #[trigger] n.methods@.contains_key(k) ==> header_value_ok(k@))
     &&& (forall|k: String, i: int| #![trigger n.methods@[k]@[i]] n.methods@.contains_key(k) && 0 <= i < n.methods@[k]@.len() ==> wf(n.methods@[k]@[i].versions))
+    &&& (forall|k: String, i: int, j: int| #![trigger n.methods@[k]@[i], n.methods@[k]@[j]] n.methods@.contains_key(k) && 0 <= i < j < n.methods@[k]@.len()
+            ==> !shared(n.methods@[k]@[i].versions, n.methods@[k]@[j].versions))
     &&& match n.edges {
         None => true,
         Some(HttpRouterEdges::Literals(m)) => forall|k: String| #[trigger] m@.contains_key(k) ==> wf_node(*m@[k]),
